@@ -449,7 +449,11 @@ func TestTwoReaders(t *testing.T) {
 
 func TestIntervalCommits(t *testing.T) {
 	start := time.Now()
-	b := New(Config{Topics: map[string]int{"t": 1}})
+	b := New(Config{Topics: map[string]int{"t": 1}, Logf: func(f string, a ...interface{}) {
+		if testing.Verbose() {
+			t.Logf(f, a...)
+		}
+	}})
 	defer b.Close()
 	b.Append("t", 0, 4)
 	r := newReader(b, "A", "t", 15*time.Millisecond)
